@@ -156,6 +156,10 @@ fn main() {
             let mut x = base.clone(); x.sd = vec![(b.pool_id.clone(), 3)]; cases.push(("pool-absent", x));
             let mut x = base.clone(); x.sd = vec![(a.pool_id.clone(), 0)]; cases.push(("stake-zero", x));
             let mut x = base.clone(); x.sd = vec![(a.pool_id.clone(), u64::MAX - 1)]; cases.push(("stake-max", x));
+            // the same pool twice in the distribution: `HashMap::from_iter` keeps the LAST pair
+            let mut x = base.clone(); x.sd = vec![(a.pool_id.clone(), 10), (a.pool_id.clone(), 20), (b.pool_id.clone(), 3)]; cases.push(("sd-duplicate-pid", x));
+            let mut x = base.clone(); x.sd = vec![(a.pool_id.clone(), 20), (b.pool_id.clone(), 3), (a.pool_id.clone(), 10)]; cases.push(("sd-duplicate-pid", x));
+            let mut x = base.clone(); x.sd = vec![(a.pool_id.clone(), 0), (a.pool_id.clone(), 7)]; cases.push(("sd-duplicate-pid", x));
             let mut x = base.clone(); x.claimed_pid = Some(b.pool_id.clone()); cases.push(("claimed-other-pid", x));
             let mut x = base.clone(); x.claimed_pid = Some("pool1whatever".into()); x.sd = vec![("pool1whatever".into(), 999), (b.pool_id.clone(), 3)]; cases.push(("claimed-pid-in-distribution", x));
             // duplicate key
@@ -238,8 +242,8 @@ fn main() {
             // ---- S on the implementation -----------------------------------------------------
             if let Ok(pid) = &res {
                 let e = cs.evol.unwrap_or(u64::MAX);
-                let in_window = kes_ok.iter().any(|t| (*t as u64) + 1 >= e && (*t as u64) <= e.saturating_add(1) && *t <= 64);
-                let dist = sd_eff.iter().find(|(p, _)| p == pid).map(|(_, s)| *s);
+                let in_window = kes_ok.iter().any(|t| (*t as u64) + 1 >= e && (*t as u64) <= e.saturating_add(1) && *t <= 63);
+                let dist = sd_eff.iter().rev().find(|(p, _)| p == pid).map(|(_, s)| *s); // last pair wins (HashMap::from_iter)
                 let mut why = vec![];
                 if !opcert_ok { why.push("op-cert not signed by the cold key"); }
                 if !in_window { why.push("no valid KES evolution within one period of the announced one"); }
